@@ -64,7 +64,7 @@ def run_cases(prop, P, cases, tag):
         outs, xs = core.run_harness(mode, cases, f"{prop}{tag}")
         for name, chk, verdict, detail in xs:
             base = name.split(":")[0]
-            if verdict != "ok" and (chk in P.get("x_checks", []) or chk in ("panic", "abort")):
+            if verdict != "ok" and (chk.split(":")[0] in P.get("x_checks", []) or chk in ("panic", "abort")):
                 if chk in ("panic", "abort") and not P.get("panic_is_violation", True):
                     findings.append({"case": base, "kind": "harness", "check": chk, "detail": detail})
                 else:
@@ -77,7 +77,7 @@ def run_cases(prop, P, cases, tag):
                 stats["harness_lines"] += len(res[chk])
                 for name, v in res[chk].items():
                     if v != 0:
-                        kind = "decode" if v in (2, 3, 9) else ("spec" if chk.startswith("spec_") else "corr")
+                        kind = "decode" if v in (2, 3, 9) else "known" if v == 4 else ("spec" if chk.startswith("spec_") else "corr")
                         findings.append({"case": name.split(":")[0], "kind": kind, "check": chk, "detail": f"verdict {v} on {name}"})
         stats.setdefault("outs", []).extend(outs)
         if P.get("post"):
@@ -278,6 +278,18 @@ def main(argv):
                                             "example_case_where_model_and_code_differ": ex,
                                             "note": "no input was found on which the property itself fails"})
             violations.append((path, " no-failing-input-found"))
+    # occurrences of a recorded known class (verdict 4): listed -> KNOWN-FINDING, not listed -> violation
+    known_hits = [f for f in findings if f["kind"] == "known"]
+    if known_hits:
+        listed = [k for k in known if k.get("check") == known_hits[0]["check"]]
+        if listed:
+            reported_known.add(f"{listed[0].get('site', '')} {listed[0].get('class', '')} (reproduced on {len(known_hits)} "
+                               f"inputs of this run, e.g. case {known_hits[0]['case']})")
+        elif not violations:
+            case = byname.get(known_hits[0]["case"])
+            path = core.write_replay(prop, {"property": prop, "check": known_hits[0]["check"], "kind": "unlisted-known-class",
+                                            "case": case_json(case) if case else None})
+            violations.append((path, ""))
     for k in sorted(reported_known):
         log(f"KNOWN-FINDING: property={prop} {k}")
     for path, suffix in violations:
